@@ -101,11 +101,29 @@ def roleSum (d : Decl) (r : Nat) (x : Val) (g : Nat) : Int :=
   (((List.range d.mem.length).filter (fun i => d.mem.getD i 0 = g ∧ d.roles.getD i 0 = r)).map
     (fun i => x.getD i 0)).foldl (· + ·) 0
 
-/-- role-based operations (operation codes 10–49, role `r = o % 10`): every one is a function of
-    the SET of role holders of each group.  The order-dependent operations of `GroupPopulation`
-    (`value_nth_person`, `first_person`, `get_rank`) are deliberately NOT in the language: their
-    result is defined by storage order. -/
-def isRoleOp (o : Nat) : Bool := decide (10 ≤ o ∧ o < 50)
+/-- the values of `x` at the members of group `g` that hold role `r` (`r = 9`: at every member,
+    no role filter), in storage order -/
+def holderVals (d : Decl) (r : Nat) (x : Val) (g : Nat) : List Int :=
+  ((List.range d.mem.length).filter (fun i => d.mem.getD i 0 = g ∧ (r = 9 ∨ d.roles.getD i 0 = r))).map
+    (fun i => x.getD i 0)
+
+/-- total reductions on integers: the greatest / least element (0 for no element: the ±∞ that
+    `GroupPopulation.max` / `min` return for a group without holder is replaced by 0), and "every
+    element is non-zero" (1 for no element, like `GroupPopulation.all`) -/
+def listMax : List Int → Int
+  | [] => 0
+  | a :: t => t.foldl max a
+def listMin : List Int → Int
+  | [] => 0
+  | a :: t => t.foldl min a
+def listAll (l : List Int) : Int := if l.all (fun a => a ≠ 0) then 1 else 0
+
+/-- role-based operations (operation codes 10–79, role `r = o % 10`, `r = 9` = no role filter for
+    the reductions 50–79): every one is a function of the SET (multiset of values) of role holders
+    of each group.  The order-dependent operations of `GroupPopulation` (`value_nth_person`,
+    `first_person`, `get_rank`) are deliberately NOT in the language: their result is defined by
+    storage order. -/
+def isRoleOp (o : Nat) : Bool := decide (10 ≤ o ∧ o < 80)
 
 /-- unary operations on vectors -/
 def f1 (d : Decl) (o : Nat) (x : Val) : Val :=
@@ -124,6 +142,12 @@ def f1 (d : Decl) (o : Nat) (x : Val) : Val :=
     (List.range d.nG).map (roleSum d (o - 30) (List.replicate d.mem.length 1))
   else if 40 ≤ o ∧ o < 50 then    -- `any(x, role=r)` = `sum(x, role=r) > 0`
     (List.range d.nG).map (fun g => if roleSum d (o - 40) x g > 0 then 1 else 0)
+  else if 50 ≤ o ∧ o < 60 then    -- `max(x, role=r)` (`r = 9`: `max(x)`), 0 for a group without holder
+    (List.range d.nG).map (fun g => listMax (holderVals d (o - 50) x g))
+  else if 60 ≤ o ∧ o < 70 then    -- `min(x, role=r)`, 0 for a group without holder
+    (List.range d.nG).map (fun g => listMin (holderVals d (o - 60) x g))
+  else if 70 ≤ o ∧ o < 80 then    -- `all(x, role=r)`, 1 for a group without holder
+    (List.range d.nG).map (fun g => listAll (holderVals d (o - 70) x g))
   else if 100 ≤ o then x.map (fun a => a * ((o : Int) - 150))
   else x
 
@@ -175,7 +199,7 @@ def elabRead (d : Decl) (w : Nat) (q : Except String Period) (add : Bool) : Expr
       | .error _ => .bad
 
 /-- elaboration of a formula expression; `ent` is the entity the sub-expression lives on
-    (`op1 1` and the role operations `op1 10..49` turn a person-level operand into a group
+    (`op1 1` and the role operations `op1 10..79` turn a person-level operand into a group
     vector, `op1 2` projects a group-level operand onto persons) -/
 def elabExpr (d : Decl) (ent : Nat) (p : Period) : DExpr → Expr Period
   | .const k => .const (List.replicate (d.size ent) k)
